@@ -225,7 +225,10 @@ class _CFIProcedureTracker:
                         directive == ".cfi_endproc"
                         and procedure_start is not None
                     ):
-                        procedure_end = (idx, offset)
+                        # The end is inclusive: code inserted at the very
+                        # end of a procedure is placed in front of the
+                        # .cfi_endproc and so is still inside of it.
+                        procedure_end = (idx, offset + 1)
                         self._tree.addi(procedure_start, procedure_end)
 
     def in_procedure(self, block_idx: int, offset: int) -> bool:
